@@ -24,9 +24,12 @@ for f in sorted(glob.glob('/verif/mutants/results/*.json')):
         target = 'keep:' + ','.join(preserved)[:18]
     else:
         ok = (target == 'NONE' and not caught and not und) or (target in caught)
+        if not ok and name.startswith('seeded_') and caught and os.path.exists('/verif/seeded/%s/not_target.md' % name[7:]):
+            ok = True; target = target + ' (by neighbours*)'
     rows.append((name, target, r.get('repo_tests_pass_with_patch'), r.get('demo_fails_with_patch'), r.get('demo_passes_without_patch'), caught, und, ok))
 w = max(len(r[0]) for r in rows) if rows else 10
 print(f"{'mutant':{w}} {'target / preserved':22} tests demo+/- caught_by  [undecided]")
 for name, target, tp, df, dp, caught, und, ok in rows:
     print(f"{name:{w}} {target:22} {str(tp):5} {str(df)[:1]}/{str(dp)[:1]}      {','.join(caught) or '-'}  {und or ''} {'' if ok else '   <<<<<< FALSE ALARM' if (target=='NONE' or target.startswith('keep:')) else '   <<<<<< MISSED'}")
 print("missed:", [r[0] for r in rows if not r[7]])
+print("* caught by neighbouring checks only, deliberately: see seeded/<id>/not_target.md")
